@@ -1,0 +1,88 @@
+//go:build verif
+
+package rosmar
+
+import (
+	"sync"
+	"sync/atomic"
+)
+
+// Seams for the deterministic-simulation harness (see /verif/DESIGN.md). They exist only when
+// the package is built with `-tags verif`; without the tag every call below is an empty,
+// inlined function (verif_off.go) and the shipped behaviour is unchanged.
+
+var (
+	// VerifLockHook is called immediately before a goroutine locks one of the non-leaf
+	// mutexes (bucket, registry, expiry manager, collection). The harness parks the caller
+	// until the scheduler releases it.
+	VerifLockHook func(m *sync.Mutex, site string)
+	// VerifPointHook is called at lock-free scheduling points of the feed path.
+	VerifPointHook func(name, detail string)
+	// VerifNoteHook only reports a fact (never parks): commit of a transaction, the CAS
+	// drawn for a mutation.
+	VerifNoteHook func(name, detail string, n uint64)
+)
+
+func verifLock(m *sync.Mutex, site string) {
+	if h := VerifLockHook; h != nil {
+		h(m, site)
+	}
+}
+
+func verifPoint(name, detail string) {
+	if h := VerifPointHook; h != nil {
+		h(name, detail)
+	}
+}
+
+func verifNote(name, detail string, n uint64) {
+	if h := VerifNoteHook; h != nil {
+		h(name, detail, n)
+	}
+}
+
+type verifClock struct{ fn func() uint64 }
+
+func (c *verifClock) getTime() uint64 { return c.fn() }
+
+// VerifSetClock replaces the physical clock read by the process-wide hybrid logical clock.
+// A nil fn restores the system clock.
+func VerifSetClock(fn func() uint64) {
+	hlc.mutex.Lock()
+	defer hlc.mutex.Unlock()
+	if fn == nil {
+		hlc.clock = &systemClock{}
+	} else {
+		hlc.clock = &verifClock{fn: fn}
+	}
+}
+
+// VerifResetProcess makes the package-level state look like that of a freshly started
+// process: the hybrid logical clock forgets everything it handed out and the bucket
+// registry is empty. Handles still open are simply abandoned, as a killed process would.
+func VerifResetProcess() {
+	hlc.mutex.Lock()
+	hlc.highestTime = 0
+	hlc.mutex.Unlock()
+	cluster.lock.Lock()
+	cluster.bucketCount = make(map[string]uint)
+	cluster.buckets = make(map[string]*Bucket)
+	cluster.lock.Unlock()
+}
+
+// VerifRegistryCounts returns a copy of the registry's reference counts.
+func VerifRegistryCounts() map[string]uint {
+	cluster.lock.Lock()
+	defer cluster.lock.Unlock()
+	out := make(map[string]uint, len(cluster.bucketCount))
+	for k, v := range cluster.bucketCount {
+		out[k] = v
+	}
+	return out
+}
+
+// VerifActiveFeeds returns the number of feed goroutines currently running.
+func VerifActiveFeeds() int32 { return atomic.LoadInt32(&activeFeedCount) }
+
+// VerifHLCNow draws a timestamp from the process-wide hybrid logical clock.
+func VerifHLCNow() uint64 { return uint64(hlc.Now()) }
